@@ -7,7 +7,7 @@ export CARGO_NET_OFFLINE=true
 FD=/verif/fuzz
 bin() { echo /verif/target/fuzz/x86_64-unknown-linux-gnu/release/$1; }
 build() {
-  (cd $FD && cp /repo/Cargo.lock Cargo.lock 2>/dev/null; cargo +nightly fuzz build --fuzz-dir $FD "$1" > /verif/target/last_fuzz_build.log 2>&1)
+  (cd $FD && { [ -f Cargo.lock ] || cp /repo/Cargo.lock Cargo.lock 2>/dev/null; }; cargo +nightly fuzz build --fuzz-dir $FD "$1" > /verif/target/last_fuzz_build.log 2>&1)
 }
 if [ "$1" = "--replay" ]; then
   prop=$2; target=$3; file=$4
